@@ -65,6 +65,13 @@ func (s *Sink) Emit(src, ev string, kv ...any) int64 {
 // Reset writes a trace separator (the trace specs re-initialise on it).
 func (s *Sink) Reset(kv ...any) { s.Emit("drv", "reset", kv...) }
 
+// Count returns how many events named ev were emitted so far.
+func (s *Sink) Count(ev string) int {
+	s.mu.Lock()
+	defer s.mu.Unlock()
+	return s.Counts[ev]
+}
+
 func (s *Sink) Flush() {
 	if s == nil {
 		return
